@@ -216,6 +216,37 @@ def parse_coq(s: str):
     return v
 
 
+# --------------------------------------------------------------------------- anchored sources
+def anchor_files(prop: str) -> list[str]:
+    for l in open(os.path.join(VERIF, 'properties.jsonl')):
+        p = json.loads(l)
+        if p['id'] == prop:
+            return sorted(p.get('anchors', {}).get('files', []))
+    return []
+
+
+def anchor_hashes(prop: str, repo: str) -> dict:
+    out = {}
+    for f in anchor_files(prop):
+        path = os.path.join(repo, f)
+        try:
+            out[f] = hashlib.sha256(open(path, 'rb').read()).hexdigest()[:16]
+        except OSError:
+            out[f] = 'missing'
+    return out
+
+
+def anchors_changed(prop: str):
+    """(escalate?, list of anchored files whose content differs from anchors.json)"""
+    path = os.path.join(VERIF, 'anchors.json')
+    if os.environ.get('VERIF_NO_ESCALATE') == '1' or not os.path.exists(path):
+        return False, []
+    base = json.load(open(path)).get(prop, {})
+    now = anchor_hashes(prop, REPO)
+    changed = sorted(f for f in now if base.get(f) != now[f])
+    return bool(changed), changed
+
+
 # --------------------------------------------------------------------------- context
 class Ctx:
     def __init__(self, prop: str, tier: str, seed: int):
@@ -239,13 +270,23 @@ class Ctx:
         self.extra: dict = {}
         self.axioms: dict[str, list[str]] = {}
         self.rule = ''
+        self.escalated, self.changed_anchors = anchors_changed(prop)
+        if self.changed_anchors:
+            self.extra['anchored_files_changed_since_baseline'] = self.changed_anchors
 
     # ---- bookkeeping helpers for harnesses
     def quick(self) -> bool:
         return self.tier == 'quick'
 
     def n(self, quick: int, thorough: int) -> int:
-        return quick if self.tier == 'quick' else thorough
+        """Case count for this tier.  In the quick tier, when the anchored source files of the property differ
+        from the recorded baseline (anchors.json: someone edited the code this property is about), the count is
+        escalated (x4, capped by the thorough count): more effort exactly when the modelled code has changed."""
+        if self.tier != 'quick':
+            return thorough
+        if self.escalated:
+            return max(quick, min(thorough, quick * 4))
+        return quick
 
     def count(self, key: str, k: int = 1):
         self.dist[key] = self.dist.get(key, 0) + k
